@@ -480,3 +480,18 @@ func (s *Session) ReleaseHandler(n int) {
 		}
 	}
 }
+
+var errSendBlocked = errors.New("harness: SendMessage did not return within 2s")
+
+// SendTimed calls SendMessage but gives up waiting after 2 s (a blocked
+// caller must not hang the harness; the history then simply ends there).
+func (s *Session) SendTimed(m protocol.Message) error {
+	done := make(chan error, 1)
+	go func() { done <- s.P.SendMessage(m) }()
+	select {
+	case err := <-done:
+		return err
+	case <-time.After(2 * time.Second):
+		return errSendBlocked
+	}
+}
